@@ -37,6 +37,7 @@ def run(ctx):
     ctx.rule(power)
     ctx.rule(_default_window)
     ctx.rule(_fresh_buffers)
+    ctx.rule(energy_impulse)
     ctx.rule(si_finalize, "R-C03-frame-count")
 
 
@@ -306,3 +307,60 @@ def _fresh_buffers(ctx, R="R-C03-fresh-buffers"):
     that index them) are re-initialised on every path between two utterances (rule shared with C04)"""
     from .c04 import reset
     reset(ctx, _si(ctx.prog), R)
+
+
+def energy_impulse(ctx, R="R-C03-energy-impulse"):
+    """The energy coefficient is produced by a unit impulse that sits exactly at the translation index (so that it returns the
+    signal delayed like every filter does).  The first entry of the filter list built under include_energy is followed back
+    through transform / clamp / roll to the array it was made from: np.zeros with a single store of 1 at index p; p plus
+    the accumulated roll must equal the translation."""
+    prog = ctx.prog
+    init = prog.own_method(_si(prog), "__init__")
+    n = 0
+    for style in ("centered", "causal"):
+        ev = SymEval(prog, init, seed={"include_energy": True, "frame_style": style}, rename={}).run()
+        v = ev.env.get("self._filts")
+        ctx.need(v is not None and cc.is_call(v, "list") and len(v.args) >= 2, R, "[%s] the filter list has no closed form under include_energy" % style)
+        e00 = v.args[1]
+        ctx.need(not (e00.op == "call" and e00.args[0] == "repeat"), R, "[%s] the first filter is not the energy filter" % style)
+        for e0 in ([e00.args[1], e00.args[2]] if e00.op == "cond" else [e00]):  # real / complex transform alternatives
+            shift = S.ZERO
+            cur = e0
+            steps = []
+            while True:
+                if cur.op == "call" and cur.args[0] in ("np.fft.rfft", "np.fft.fft", "scipy.fftpack.rfft", "scipy.fftpack.fft") and len(cur.args) >= 2:
+                    steps.append("transform")
+                    cur = cur.args[1]
+                elif cc.is_call(cur, "._compute_dft") and len(cur.args) == 3:
+                    steps.append("transform")
+                    cur = cur.args[2]
+                elif cc.is_call(cur, "getitem") and cc.is_call(cur.args[2], "slice") and cur.args[2].args[1] in (S.NONE, S.ZERO) and cur.args[2].args[3] == S.NONE:
+                    steps.append("clamp")
+                    cur = cur.args[1]
+                elif cc.is_call(cur, "np.roll") and len(cur.args) == 3:
+                    shift = S.add(shift, cur.args[2])
+                    steps.append("roll")
+                    cur = cur.args[1]
+                else:
+                    break
+            ctx.need("transform" in steps, R, "[%s] the energy filter is not stored in the frequency domain: %s" % (style, S.show(e0)[:80]))
+            ok_src = cur.op == "call" and cur.args[0] == "stored" and len(cur.args) == 4 and cc.is_call(cur.args[1], "np.zeros") and cur.args[3] == S.ONE
+            ctx.need(ok_src, R, "[%s] the energy filter is not made from np.zeros with a single store of 1: %s" % (style, S.show(cur)[:100]))
+            pos = S.add(cur.args[2], shift)
+            tr = ev.env.get("self._translation")
+            ctx.need(tr is not None, R, "self._translation not assigned before the filters are built")
+            um = {}
+            for x in list(S.walk(pos)) + list(S.walk(tr)):
+                if x.op == "unknown":
+                    um[x] = S.sym("U_" + "".join(ch if ch.isalnum() else "_" for ch in str(x.args[0])))
+            pos_n, tr_n = (S.subst(pos, um), S.subst(tr, um)) if um else (pos, tr)
+            r = S.compare(pos_n, tr_n, domain={})
+            n += 1
+            if r["verdict"] == "equal":
+                ctx.ok(R, init.loc(), "[%s] the energy impulse ends up at the translation index" % style)
+            else:
+                diff = S.canon(S.sub(pos_n, tr_n))
+                ctx.bad(R, init, init.node, "[%s] the unit impulse behind the energy coefficient ends up at index translation + (%s), not at the translation index: "
+                        "coefficient 0 then integrates |x[t - (%s)]|^p, a shifted copy of the signal, instead of the energy of the frame the other "
+                        "coefficients describe" % (style, diff, diff), "the energy impulse sits at the translation index")
+    ctx.floor(R, n, 2)
